@@ -294,9 +294,12 @@ func runPrefetchGrp(id string, parts []string) string {
 				wg.Add(1)
 				go func(o c19Other, c c19Client) {
 					defer wg.Done()
-					if o.fresh || o.window {
-						// its own entry; a "window" group's own refresh turns it into B at some point
-						if m := c19GMark(ask(c, q)); m == "C" || (o.window && freshOK == nil && m == "B") {
+					// a group with its own entry asks the question itself. A "window" group does so in the burst only:
+					// a hit on an entry inside its last quarter that straddles the end of the refresh (entry read before
+					// the store, reserve after done) legitimately starts one more refresh — still never two at a time,
+					// but the totals of this scripted run would no longer be determined
+					if o.fresh || (o.window && freshOK != nil) {
+						if c19GMark(ask(c, q)) == "C" {
 							if freshOK != nil {
 								freshOK.Add(1)
 							}
